@@ -65,7 +65,7 @@ func (s *subscriptionsState) CreateFrom(sessionID string, peer uint64, pattern [
 	subscription := api.Subscription{
 		SessionID: sessionID,
 		Pattern:   pattern,
-		Peer:      s.peer,
+		Peer:      peer,
 		QoS:       qos,
 		LastAdded: clock(),
 	}
